@@ -16,7 +16,12 @@ use std::collections::{BTreeMap, BTreeSet, HashMap};
 use std::fmt::Write as _;
 use std::panic::{catch_unwind, AssertUnwindSafe};
 
+pub type LeafInfo = (usize, [f32; 3], [f32; 3], u8, usize, Vec<[f32; 3]>);
 pub fn build_mesh<F: Function + MathFunction + fidget_core::render::RenderHints + Clone>(g: &GenShape, depth: u8, mat: Matrix4<f32>, threads: usize) -> Option<Mesh> {
+    build_mesh_l::<F>(g, depth, mat, threads).map(|(m, _)| m)
+}
+/// The mesh and (through the verif hook) the leaf cells of the octree it was walked from
+pub fn build_mesh_l<F: Function + MathFunction + fidget_core::render::RenderHints + Clone>(g: &GenShape, depth: u8, mat: Matrix4<f32>, threads: usize) -> Option<(Mesh, (Vec<LeafInfo>, Vec<usize>))> {
     let shape = Shape::<F>::new(&g.ctx, g.root).unwrap();
     let pool;
     let th = match threads { 0 => None, 1 => Some(&ThreadPool::Global),
@@ -24,10 +29,60 @@ pub fn build_mesh<F: Function + MathFunction + fidget_core::render::RenderHints 
     let settings = Settings { depth, world_to_model: mat, threads: th, cancel: Default::default() };
     let bound = shape.try_into().ok()?;
     let o = Octree::build(&bound, &settings)?;
-    Some(o.walk_dual())
+    let m = o.walk_dual();
+    // (the hook's walk is the same code path; its mesh must be the one walk_dual returns)
+    let (m2, origin) = o.verif_walk_dual();
+    assert!(m2.triangles == m.triangles && m2.vertices.len() == m.vertices.len(), "verif_walk_dual and walk_dual disagree");
+    let leaves = (o.verif_leaves(), origin);
+    if std::env::var("FV_LEAVES").is_ok() { debug_leaves(&m, &leaves); }
+    Some((m, leaves))
 }
 
-pub struct MeshReport { pub problems: Vec<String>, pub vol: f64, pub area: f64, pub bad_edges: Vec<[f64; 3]> }
+/// Is the offending edge a-b the one the recorded limitation of the connectivity tables produces?  Both ends are the single
+/// vertices of two face-adjacent leaves whose shared face has alternating corner signs (inside corners on a diagonal):
+/// each cell joins the two inside corners through its far side (DcEdge.ambiguous_face_nonmanifold), so the two quads
+/// around the face's sign-changing edges repeat the edge a-b instead of pairing it.
+pub fn at_ambiguous_face(lv: &(Vec<LeafInfo>, Vec<usize>), a: usize, b: usize) -> bool {
+    let (leaves, origin) = lv;
+    let owner = |v: usize| leaves.iter().find(|l| l.4 <= origin[v] && origin[v] < l.4 + l.5.len());
+    let (Some(la), Some(lb)) = (owner(a), owner(b)) else { return false };
+    if la.5.len() != 1 || lb.5.len() != 1 { return false; }
+    for ax in 0..3 {
+        for (lo, hi) in [(la, lb), (lb, la)] {
+            // `hi` sits on top of `lo` along `ax`, and their extents overlap on the other two axes
+            if lo.2[ax] != hi.1[ax] { continue; }
+            let (u, v) = ((ax + 1) % 3, (ax + 2) % 3);
+            let overlap = |k: usize| lo.1[k] < hi.2[k] && hi.1[k] < lo.2[k];
+            if !(overlap(u) && overlap(v)) { continue; }
+            // the face of the finer (deeper) cell; corner i has bit k set when it is on the upper side of axis k
+            let (cell, upper_side) = if lo.0 >= hi.0 { (lo, true) } else { (hi, false) };
+            let bit = |du: usize, dv: usize| { let i = (if upper_side { 1 << ax } else { 0 }) | (du << u) | (dv << v); (cell.3 >> i) & 1 == 1 };
+            let (c00, c10, c01, c11) = (bit(0, 0), bit(1, 0), bit(0, 1), bit(1, 1));
+            if c00 == c11 && c10 == c01 && c00 != c10 { return true; }
+        }
+    }
+    false
+}
+
+fn debug_leaves(m: &Mesh, lv: &(Vec<LeafInfo>, Vec<usize>)) {
+    let (leaves, origin) = lv;
+    let mut edges: HashMap<(usize, usize), Vec<usize>> = HashMap::new();
+    for (ti, t) in m.triangles.iter().enumerate() { for e in [(t.x, t.y), (t.y, t.z), (t.z, t.x)] { edges.entry(e).or_default().push(ti); } }
+    let owner = |v: usize| leaves.iter().find(|l| l.4 <= origin[v] && origin[v] < l.4 + l.5.len());
+    let mut seen = BTreeSet::new();
+    for ((a, b), ts) in &edges {
+        let rev = edges.get(&(*b, *a)).map(|v| v.len()).unwrap_or(0);
+        if ts.len() > 1 || rev != 1 {
+            eprintln!("edge {a}->{b}: {} times, reverse {rev} times; triangles {:?}", ts.len(), ts.iter().map(|t| m.triangles[*t]).map(|t| [t.x, t.y, t.z]).collect::<Vec<_>>());
+            for t in ts { let t = m.triangles[*t]; for v in [t.x, t.y, t.z] { seen.insert(v); } }
+        }
+    }
+    for v in seen { let p = m.vertices[v]; match owner(v) {
+        Some(l) => eprintln!("  vertex {v} at ({:.4}, {:.4}, {:.4}) leaf depth {} [{:?} .. {:?}] mask {:#010b} nverts {}", p.x, p.y, p.z, l.0, l.1, l.2, l.3, l.5.len()),
+        None => eprintln!("  vertex {v}: no owner") } }
+}
+
+pub struct MeshReport { pub problems: Vec<String>, pub vol: f64, pub area: f64, pub bad_edges: Vec<(usize, usize)> }
 
 /// closed 2-manifold: every directed edge exactly once, its reverse exactly once; no degenerate triangle; finite vertices
 pub fn check_mesh(m: &Mesh) -> MeshReport {
@@ -51,8 +106,7 @@ pub fn check_mesh(m: &Mesh) -> MeshReport {
     if unmatched > 0 { p.push(format!("kind=open-or-misoriented-edge {unmatched} directed edges have no single reverse")); }
     let mut bad_edges = vec![];
     for ((a, b), c) in &edges { if *c > 1 || edges.get(&(*b, *a)).copied().unwrap_or(0) != 1 {
-        let (p, q) = (m.vertices[*a], m.vertices[*b]);
-        bad_edges.push([(p.x + q.x) as f64 / 2.0, (p.y + q.y) as f64 / 2.0, (p.z + q.z) as f64 / 2.0]); } }
+        bad_edges.push((*a, *b)); } }
     let (mut vol, mut area) = (0.0f64, 0.0f64);
     if oob == 0 { for t in &m.triangles {
         let f = |i: usize| Vector3::new(m.vertices[i].x as f64, m.vertices[i].y as f64, m.vertices[i].z as f64);
@@ -76,8 +130,10 @@ pub fn run(seed: u64, count: usize, outdir: &str) -> std::io::Result<i32> {
     let mut hist: BTreeMap<String, usize> = BTreeMap::new();
     let mut distinct = BTreeSet::new();
     let (mut ntri, mut nempty) = (0usize, 0usize);
+    let only: Option<usize> = std::env::var("FV_ONLY").ok().and_then(|v| v.parse().ok());
     for ci in 0..count {
         let mut r = rng.fork();
+        if let Some(o) = only { if o != ci { cases.push_str("c08 0 0\n"); impls.push('\n'); continue; } }
         let mut g = gen_csg(&mut r, true, true);
         let mut depth = *r.pick(&[1u8, 2, 3, 3, 4, 4, 5, 6]);
         let corpus = ci < 3;
@@ -135,31 +191,16 @@ pub fn run(seed: u64, count: usize, outdir: &str) -> std::io::Result<i32> {
         let cell = 2.0 / (1u32 << depth) as f64 * det.cbrt();
         let mut il = String::new();
         let mut wire = String::new();
-        for (name, res) in [("vm", catch_unwind(AssertUnwindSafe(|| build_mesh::<VmFunction>(&g, depth, mat, threads)))),
-                            ("jit", catch_unwind(AssertUnwindSafe(|| build_mesh::<JitFunction>(&g, depth, mat, threads))))] {
-            let m = match res { Ok(Some(m)) => m, Ok(None) => { bad.push(format!("kind=no-mesh backend={name}")); continue; }
+        for (name, res) in [("vm", catch_unwind(AssertUnwindSafe(|| build_mesh_l::<VmFunction>(&g, depth, mat, threads)))),
+                            ("jit", catch_unwind(AssertUnwindSafe(|| build_mesh_l::<JitFunction>(&g, depth, mat, threads))))] {
+            let (m, leaves) = match res { Ok(Some(m)) => m, Ok(None) => { bad.push(format!("kind=no-mesh backend={name}")); continue; }
                                 Err(_) => { bad.push(format!("kind=panic backend={name} meshing panicked")); continue; } };
             let rep = check_mesh(&m);
             ntri += m.triangles.len();
             if m.triangles.is_empty() { nempty += 1; }
             // a leaf face whose four corners alternate in sign (inside corners on a diagonal) near an offending edge:
             // the recorded limitation of the connectivity tables (DcEdge.ambiguous_face_nonmanifold)
-            let ambiguous = !rep.bad_edges.is_empty() && {
-                let h = 2.0 / (1u32 << depth) as f64;
-                let inv = m64.try_inverse();
-                rep.bad_edges.iter().all(|e| {
-                    let Some(inv) = inv else { return false };
-                    let w = inv.transform_point(&nalgebra::Point3::new(e[0], e[1], e[2]));
-                    let base = [((w.x + 1.0) / h).floor() as i64, ((w.y + 1.0) / h).floor() as i64, ((w.z + 1.0) / h).floor() as i64];
-                    let sign = |i: i64, j: i64, k: i64| { let q = m64.transform_point(&nalgebra::Point3::new(-1.0 + i as f64 * h, -1.0 + j as f64 * h, -1.0 + k as f64 * h)); eval_f64(&g, [q.x, q.y, q.z]) < 0.0 };
-                    let mut found = false;
-                    for di in -2..=2i64 { for dj in -2..=2i64 { for dk in -2..=2i64 { let (i, j, k) = (base[0] + di, base[1] + dj, base[2] + dk);
-                        for (u, v) in [((1, 0, 0), (0, 1, 0)), ((0, 1, 0), (0, 0, 1)), ((1, 0, 0), (0, 0, 1))] {
-                            let (c00, c10, c01, c11) = (sign(i, j, k), sign(i + u.0, j + u.1, k + u.2), sign(i + v.0, j + v.1, k + v.2), sign(i + u.0 + v.0, j + u.1 + v.1, k + u.2 + v.2));
-                            if c00 == c11 && c10 == c01 && c00 != c10 { found = true; }
-                        } } } }
-                    found })
-            };
+            let ambiguous = !rep.bad_edges.is_empty() && rep.bad_edges.iter().all(|(a, b)| at_ambiguous_face(&leaves, *a, *b));
             for p in &rep.problems { let (k, rest) = p.split_once(' ').unwrap();
                 let k = if ambiguous && (k == "kind=directed-edge-repeated" || k == "kind=open-or-misoriented-edge") { "kind=nonmanifold-at-ambiguous-face" } else { k };
                 bad.push(format!("{k} backend={name} {rest}")); }
